@@ -325,7 +325,9 @@ pub fn jobs(tier: Tier) -> Vec<Job> {
                         (Tier::Thorough, true) => 5,
                         (Tier::Thorough, false) => 4,
                     };
-                    v.push(fault_job(&d, plan, false, 2, FOCUS_ATTEMPT, b, true));
+                    v.push(fault_job(&d, plan.clone(), false, 2, FOCUS_ATTEMPT, b, true));
+                    // the same window under the sticky cost model
+                    v.push(fault_job(&d, plan, false, 2, STICKY_ATTEMPT, if tier == Tier::Quick { 3 } else { 4 }, true));
                 }
             }
         }
